@@ -100,7 +100,7 @@ theorem evalRes_push {P : Prog} {B : List NodeId} {bp : NodeId → Prop} {s : St
     · exact hinv.stackB fr (by rw [hs]; exact List.mem_cons_self)
     · exact hinv.stackB fr' (by rw [hs]; exact List.mem_cons_of_mem _ h)
   refine ⟨hinv.congr rfl rfl rfl rfl hstk,
-    ⟨rfl, rfl, rfl, fun q r h => ⟨r, h, Or.inl rfl⟩, fun q hq hq' => by simp [hq] at hq'⟩, rfl, rfl, Nat.le_max_right _ _,
+    ⟨rfl, rfl, rfl, fun q r h => ⟨r, h, Or.inl rfl⟩, fun q hq hq' => by simp [hq] at hq', ⟨[], rfl, fun _ h => by cases h⟩⟩, rfl, rfl, Nat.le_max_right _ _,
     ?_, ?_, ?_, ?_, ?_, ?_, ?_⟩
   · show max tu fr.maxTu ≤ max fr.maxTu s.epoch; omega
   · intro p hp; exact ((allN_pushDep p _ _ _).1 hp).2
